@@ -607,9 +607,65 @@ def r10(ctx, facts):
                "is not connected to is left out of the plan unless datacenter failover happens to be possible", uq[0].span)
 
 
+def r11(ctx, facts):
+    """where the verdict of the host filter becomes a property of the node: the policy trusts `Node::is_enabled()`, so every
+    refresh must leave each node object agreeing with what the filter says NOW. calculate_new_topology may keep an old Node
+    object only if its enabled flag equals the current verdict; otherwise it builds a new one (seed C05-k: a peer that was
+    accepted once and is rejected later kept its enabled node and its pool)."""
+    from ..util import field_slice
+    r = ctx.rule("R11", "a refresh keeps an old Node object only if its enabled flag equals the host filter's current verdict", floor=2)
+    b = facts.one(r"^scylla::cluster::state::ClusterState::calculate_new_topology$")
+    dj = dj_of(b, facts)
+    verdicts = [c for bb, c in b.calls() if bb in b.live_blocks and (c.name or c.decl or "").split("::")[-1] in ("is_none_or", "is_some_and", "map_or", "accept")
+                and b.local_ty(c.dest[0]) == "bool"]
+    if not verdicts:
+        raise AnchorLost("calculate_new_topology: the host filter's verdict (a bool from is_none_or / accept) not found")
+    vdest = {c.dest[0] for c in verdicts}
+    vkeys = {("call", c.bb) for c in verdicts} | {("val", (l, ())) for l in vdest}
+    for bb in b.live_blocks:
+        for st in b.stmts(bb):
+            if st[0] == "A" and not st[1][1] and st[2][0] == "agg" and st[2][1][0] == "tuple":
+                for k, op in enumerate(st[2][2]):
+                    if op[0] in ("c", "m") and (op[1][0] in vdest or vdest & backward_slice(b, op)[0]) and b.local_ty(op[1][0]) == "bool":
+                        vkeys.add(("val", (st[1][0], (str(k),))))
+    gets = {c.dest[0] for bb, c in b.calls() if bb in b.live_blocks and (c.name or c.decl or "").split("::")[-1] in ("get", "get_mut", "remove", "get_key_value") and "HashMap" in (c.name or c.decl or "")}
+    enabled_calls = [c for bb, c in b.calls() if bb in b.live_blocks and (c.name or "").endswith("Node::is_enabled")]
+    sites = []
+    for bb, c in b.calls():
+        if bb not in b.live_blocks or not c.args:
+            continue
+        nm = (c.name or c.decl or "")
+        last = nm.split("::")[-1]
+        if not ((last == "clone" and "Node" in b.local_ty(c.dest[0])) or last.startswith("inherit")):
+            continue
+        seen, calls, _ = field_slice(b, c.args[0])
+        if any((x.name or x.decl or "").split("::")[-1] in ("clone", "new", "new_disabled") or (x.name or x.decl or "").split("::")[-1].startswith("inherit") for x in calls):
+            continue     # a copy of the node chosen for this peer, not a reuse of the old object
+        if not ({l for l, _ in seen} & gets):
+            continue
+        sites.append(c)
+    if not sites:
+        raise AnchorLost("calculate_new_topology: no reuse of an old Node object found")
+    for k, c in enumerate(sorted(sites, key=lambda c: (c.span.line, c.bb))):
+        bad = None
+        for stt in dj.states_at(c.bb):
+            v = None
+            for key in vkeys:
+                val = stt.get(key)
+                if val is not None and val[0] == "in" and len(val[1]) == 1:
+                    v = next(iter(val[1]))
+            agree = v is not None and any(in_set(stt.get(("call", e.bb)), {v}) for e in enabled_calls)
+            if not agree:
+                bad = (v, stt)
+        r.instance("reused-node-agrees-with-verdict#%d" % k, bad is None,
+                   "an old Node object is kept for this peer in a state where the filter's verdict is %s but the node's own is_enabled() is not known to be the same: "
+                   "a node the filter now rejects stays enabled (keeps its pool, is named in plans), or an accepted one stays disabled"
+                   % ({0: "`rejected`", 1: "`accepted`", None: "unknown"}[bad[0]] if bad else ""), c.span)
+
+
 def check(ctx):
     facts = inline_view(ctx.facts("default"))
-    for fn in (r1, r2, r3, r4, r5, r6, r7, r8, r9, r10):
+    for fn in (r1, r2, r3, r4, r5, r6, r7, r8, r9, r10, r11):
         try:
             fn(ctx, facts)
         except AnchorLost as ex:
